@@ -2,20 +2,41 @@
 # re-run every kept seeded change: a scratch worktree of /repo's HEAD with the patch applied is checked through HIVE_REPO
 # (/repo itself is not touched); prints one line per seeded change.  Meant to be run from a snapshot (vp run), not from /verif
 # while other checks are running there (coq/Gen is regenerated from the tree under test).
+# usage: seed_regress.sh [shards]   — with shards > 1 the seeds are dealt round-robin to that many scratch copies of this
+# directory (under /var/tmp, removed afterwards) that run side by side.
 cd "$(dirname "$0")/.."
+HERE=$PWD
+SHARDS=${1:-1}
 mkdir -p /var/tmp/seedwt
-for d in seeded/*/; do
-  name=$(basename "$d")
-  prop=$(python3 -c "import json,sys; print(json.load(open('$d/meta.json'))['property'])")
-  wt=/var/tmp/seedwt/$name
-  git -C /repo worktree remove --force "$wt" >/dev/null 2>&1
-  git -C /repo worktree add -f "$wt" HEAD >/dev/null 2>&1
-  if git -C "$wt" apply "$PWD/$d/patch.diff" 2>/dev/null; then
-    line=$(HIVE_REPO="$wt" ./check "$prop" --tier quick 2>&1 | grep -E "^(OK|VIOLATION|KNOWN-FINDING)" | head -1 | cut -c1-150)
-    echo "SEED $name $prop :: $line"
-  else
-    echo "SEED $name $prop :: PATCH-DOES-NOT-APPLY"
-  fi
-  git -C /repo worktree remove --force "$wt" >/dev/null 2>&1
-done
+run_shard() {   # $1 = directory to run in, $2 = shard index
+  cd "$1" || exit 1
+  i=0
+  for d in seeded/*/; do
+    i=$((i + 1))
+    [ $(( i % SHARDS )) -eq "$2" ] || continue
+    name=$(basename "$d")
+    prop=$(python3 -c "import json,sys; print(json.load(open('$d/meta.json'))['property'])")
+    wt=/var/tmp/seedwt/$name
+    git -C /repo worktree remove --force "$wt" >/dev/null 2>&1
+    git -C /repo worktree add -f --detach "$wt" HEAD >/dev/null 2>&1
+    if git -C "$wt" apply "$PWD/$d/patch.diff" 2>/dev/null; then
+      line=$(HIVE_REPO="$wt" ./check "$prop" --tier quick 2>&1 | grep -E "^(OK|VIOLATION|KNOWN-FINDING)" | head -1 | cut -c1-170)
+      echo "SEED $name $prop :: $line"
+    else
+      echo "SEED $name $prop :: PATCH-DOES-NOT-APPLY"
+    fi
+    git -C /repo worktree remove --force "$wt" >/dev/null 2>&1
+  done
+}
+if [ "$SHARDS" -le 1 ]; then
+  SHARDS=1
+  run_shard "$HERE" 0
+else
+  for k in $(seq 0 $((SHARDS - 1))); do
+    copy=/var/tmp/seed_regress_$k
+    rm -rf "$copy" && cp -r "$HERE" "$copy"
+    ( run_shard "$copy" "$k"; rm -rf "$copy" ) &
+  done
+  wait
+fi
 git -C /repo worktree prune
